@@ -9,7 +9,7 @@ Open Scope Z_scope.
 (* sequential executors (concurrency limit 1 - also the non-future executors): for EVERY workload, timeout setting and instant at which
    close is called, every accepted event has been fully processed when close returns *)
 Theorem C06_close_waits_when_sequential :
-  forall tau its t_close, let ds := run 1 tau its in done_at ds (t_drop 1 ds t_close) = length its.
+  forall tau errdelay its t_close, let ds := run 1 tau errdelay its in done_at ds (t_drop 1 ds t_close) = length its.
 Proof. exact close_waits_for_everything_when_sequential. Qed.
 Print Assumptions C06_close_waits_when_sequential.
 
@@ -17,13 +17,13 @@ Print Assumptions C06_close_waits_when_sequential.
    called at once: the channel is empty and the stream is dropped at time 0 - close returns with 0 of 2 events processed *)
 Theorem C06_refuted_with_concurrency :
   let its := [{| dur := 200; fails := false |}; {| dur := 200; fails := false |}] in
-  let ds := run 4 0 its in
+  let ds := run 4 0 0 its in
   t_drop 4 ds 0 = 0 /\ done_at ds (t_drop 4 ds 0) = 0%nat /\ length its = 2%nat.
 Proof. vm_compute. auto. Qed.
 Print Assumptions C06_refuted_with_concurrency.
 
 (* no event is discarded by closing: every accepted event is processed in the end, whatever the limit *)
 Theorem C06_nothing_discarded :
-  forall limit tau its, length (run limit tau its) = length its.
+  forall limit tau errdelay its, length (run limit tau errdelay its) = length its.
 Proof. intros. apply schedule_length. Qed.
 Print Assumptions C06_nothing_discarded.
